@@ -68,6 +68,23 @@ def families():
                  "Trace_GBEma", C10.trace_cfg(), lambda t: _bump_first_number(t["res"])))
     fams.append(("GBNanops", helpers.run_nan, [dict(fn=f, arr=[1, NULL, 3, 2], t=t) for f, t in (("sum", 1), ("max", 3), ("mean", 2), ("count", 1))],
                  "Trace_GBHelpers", C20.TRACE_CFG, lambda t: _bump_first_number([t["res"]] if not isinstance(t["res"], list) else t["res"]) if False else _corrupt_scalar(t)))
+    # reductions over chunked keys: the returned value, a per-piece partial of hook H6, and count_ikey
+    from .checks import C03
+    from .drivers import chunked, strategy
+    cc = [dict(op=op, keys=[2, 1, NULL, 1, 2], vals=[1, NULL, 2, 3, 1], emb="f64", kenc="f64", klens=None, T=2, mask=m, sort=1, pre=[])
+          for op, m in (("sum", {"k": "none"}), ("min", {"k": "bool", "b": [1, 0, 1, 1, 1]}), ("last", {"k": "slice", "s": [1, -997, -997]}))]
+    fams.append(("GBChunked/final", chunked.run_chunked, cc, "Trace_GBChunked", C03.chk_trace_cfg(True), lambda t: _bump_first_number(t["final"])))
+    fams.append(("GBChunked/partial", chunked.run_chunked, cc, "Trace_GBChunked", C03.chk_trace_cfg(True),
+                 lambda t: any(_bump_first_number(p["cnt"]) for p in t["pieces"] if p["cnt"])))
+    fams.append(("GBChunked/kcount", chunked.run_chunked, cc, "Trace_GBChunked", C03.chk_trace_cfg(True), lambda t: _bump_first_number(t["kcount"])))
+    pc = [dict(n=3, order=[2, 0, 1]), dict(n=3, order=[1, 2, 0], raises=[0, 2]), dict(n=4, order=[3, 1, 0, 2], reduce=1)]
+    fams.append(("GBParallel/gather", strategy.run_pool, pc[:1], "Trace_GBParallel", C03.PTRACE, lambda t: t["results"].reverse() or True))
+    fams.append(("GBParallel/raise", strategy.run_pool, pc[1:2], "Trace_GBParallel", C03.PTRACE, lambda t: t.update(exc=0) or True))
+    fams.append(("GBParallel/reduce", strategy.run_pool, pc[2:], "Trace_GBParallel", C03.PTRACE, lambda t: t["reduced"].reverse() or True))
+    fams.append(("GBSelect/kernel", rowwise.run_find_n, [dict(fn=f, codes=[0, 1, 0, -1, 1, 0], ngroups=2, n=2, sel=[1, 1, 1, 1, 0, 1]) for f in ("first", "last")],
+                 "Trace_GBSelect", C15.TRACE_CFG, lambda t: _bump_first_number(t["mat"])))
+    fams.append(("GBCumulative/long", rowwise.run_cum, [C08.long_cases("quick")[0]], "Trace_GBCumulative", C08.TRACE_CFG.format(diag="FALSE"),
+                 lambda t: t["res"].__setitem__(30000, t["res"][30000] + 1) or True))
     return fams
 
 
